@@ -91,3 +91,21 @@ def parse_dynamic_total(m: Model, r: Report, rid: str) -> None:
             any(isinstance(s, ast.Return) and ast.unparse(s.value) == "RawRequest(pdu)" for s in hs[0].body), rid, f"{pd.qualname}#raw-fallback",
             f"the dynamic request parser catches {[ast.unparse(h.type) if h.type else '<bare>' for h in hs]}: every failure of a typed parser (incl. the "
             "round-trip AssertionError) must fall back to RawRequest, otherwise the server raises and drops the connection", loc=pd.loc)
+
+
+def busy_last_attempt(m: Model, r: Report, rid: str) -> None:
+    """UDSClient.request_unsafe: a busyRepeatRequest answer on the last attempt is returned to the caller (it is an answer of an
+    implemented service), it is not turned into a missing response."""
+    from sa.model import walk_no_nested
+    fn = m.require_function("gallia.services.uds.core.client.UDSClient.request_unsafe")
+    busy = [n for n in walk_no_nested(fn.node) if isinstance(n, ast.If) and "busyRepeatRequest" in ast.unparse(n.test)]
+    fors = [n for n in walk_no_nested(fn.node) if isinstance(n, ast.For)]
+    ok = False
+    if len(busy) == 1 and len(fors) == 1 and busy[0].body and isinstance(busy[0].body[0], ast.If):
+        inner = busy[0].body[0]
+        iv = ast.unparse(fors[0].target)
+        t = inner.test
+        ok = isinstance(t, ast.Compare) and len(t.ops) == 1 and isinstance(t.ops[0], (ast.GtE, ast.Eq)) and ast.unparse(t.left) == iv and \
+            inner.body and isinstance(inner.body[0], ast.Return) and isinstance(inner.body[0].value, ast.Name)
+    r.check(ok, rid, f"{fn.qualname}#busy-last-attempt", "busyRepeatRequest on the last attempt must be returned to the caller "
+            "(scanners classify it as 'the service answers'; as a MissingResponse it is logged as a timeout and the service is not reported)", loc=fn.loc)
